@@ -419,6 +419,64 @@ def r5_agreement(ctx, f, rep, tabs):
     rep.check(good, 'C07-R5', hc.nname, 'the reader refuses zero-length items', construct='empty-item-reader')
 
 
+def r5b_reader_constants(ctx, f, rep):
+    """The reader must accept everything the writer can produce: its rejection predicates, with their constants."""
+    hd = f.fn('Foca::handle_data')
+    seen = set()
+    n = 0
+    for p in ctx.paths(f, hd, 'none'):
+        if not (p.end == 'return' and p.ret[0] == 'agg' and p.ret[3] == 'Err' and q.variant_name(p.ret[5][0]) == 'MalformedPacket'):
+            continue
+        if any(c['res'] == 'Foca::handle_custom_broadcasts' for c in p.calls()):
+            continue
+        n += 1
+        calls = {c['id']: c for c in p.calls()}
+        isrem = lambda v: v[0] == 'call' and v[1] in calls and calls[v[1]]['res'].endswith('remaining')
+        one = ann = more = None
+        for c in p.conds():
+            es = q.eq_sides(c['expr'])
+            if es and any(isrem(x) for x in es[1:]) and any(x[0] == 'const' and x[2] == 1 for x in es[1:]):
+                one = (q.cond_truth(c) == es[0])
+            if es and any(q.is_variant(x, 'Message', 'Announce') for x in es[1:]):
+                ann = (q.cond_truth(c) == es[0])
+            al = q.at_least(c, isrem)
+            if al is not None and al[1] == 1:
+                more = True
+        cls = 'one-trailing-byte' if one else ('announce-with-payload' if (ann and more) else 'other')
+        seen.add(cls)
+        rep.check(cls != 'other', 'C07-R5', hd.nname, 'the framing check right after the header rejects exactly: one trailing '
+                  'byte, or an Announce followed by anything', construct='reader-malformed:' + cls,
+                  facts={'remaining==1': one, 'announce': ann, 'remaining>0': more})
+    rep.check(seen == {'one-trailing-byte', 'announce-with-payload'}, 'C07-R5', hd.nname, 'both rejection classes exist and no '
+              'other', construct='reader-malformed-classes', facts={'classes': sorted(seen)})
+    rep.floor('C07-R5', n, 2, 'MalformedPacket returns after the header')
+    hc = f.fn('Foca::handle_custom_broadcasts')
+    thresholds = set()
+    for p in ctx.paths(f, hc, 'none'):
+        calls = {c['id']: c for c in p.calls()}
+        issz = lambda v: v[0] == 'call' and v[1] in calls and calls[v[1]]['res'].split('::')[-1] in ('len', 'remaining')
+        first_get = next((i for i, e in enumerate(p.events) if e['kind'] == 'call' and e['decl'] == 'bytes::Buf::get_u16'), None)
+        if first_get is None:
+            continue
+        # what the path established about the section size before reading the first length prefix
+        lb = 0
+        for c in q.conds_before(p, first_get):
+            al = q.at_least(c, issz)
+            if al is not None:
+                lb = max(lb, al[1])
+        thresholds.add(lb)
+    rep.check(thresholds == {3}, 'C07-R5', hc.nname, 'a custom section is parsed as soon as it holds 3 bytes (2-byte prefix + 1 '
+              'byte): the smallest item the writer can produce is accepted', construct='custom-min-size',
+              facts={'lower_bounds_seen': sorted(thresholds)})
+    # sections of 1 or 2 bytes are rejected, an empty one is fine
+    small = set()
+    for p in ctx.paths(f, hc, 'none'):
+        if p.end == 'return' and not any(e['decl'] == 'bytes::Buf::get_u16' for e in p.calls()):
+            small.add(q.variant_name(p.ret[5][0]) if p.ret[3] == 'Err' else 'Ok')
+    rep.check(small == {'Ok', 'MalformedPacket'}, 'C07-R5', hc.nname, 'without any item the section is either empty (Ok) or '
+              'malformed', construct='custom-empty-or-malformed', facts={'outcomes': sorted(small)})
+
+
 def closure_ret(ctx, f, clo):
     cb = f.fn(clo)
     ps = ctx.paths(f, cb, 'small')
@@ -566,6 +624,7 @@ def check(ctx):
         r3_sections(ctx, f, rep, tabs)
         r4_count(ctx, f, rep)
         r5_agreement(ctx, f, rep, tabs)
+        r5b_reader_constants(ctx, f, rep)
         r6_feed(ctx, f, rep)
         r7_scratch(ctx, f, rep)
     rep.cur_config = None
